@@ -156,8 +156,15 @@ class ElectronicControlUnit:
         :param callback:
             Function to call when message is received.
         """
-        # modify the list in place, other threads may hold a reference to it
-        self._subscribers[:] = [dic for dic in self._subscribers if dic['cb'] != callback]
+        # take the entries out one by one: rebuilding the list would undo what another thread
+        # (a subscribe or unsubscribe from a callback) did to it meanwhile
+        for dic in list(self._subscribers):
+            if dic['cb'] == callback:
+                try:
+                    self._subscribers.remove( dic )
+                except ValueError:
+                    # removed by someone else already
+                    pass
 
 
     def add_ca(self, **kwargs):
